@@ -25,15 +25,15 @@ g_algname!(tdes_eee3_algname, TdesEee3, ["des", "eee3"]);
 //@ harness name=tdes_eee2_algname prop=C19 tier=quick bits=0 est=20 desc="AlgorithmName of TdesEee2 names algorithm and variant"
 g_algname!(tdes_eee2_algname, TdesEee2, ["des", "eee2"]);
 
-//@ harness name=des_zeroize prop=C16 tier=quick bits=1024 variants=des+zeroize est=25 desc="drop of an arbitrary-state Des leaves every byte of its storage zero"
+//@ harness name=des_zeroize prop=C16 tier=quick bits=1024 variants=des+zeroize est=15 desc="drop of an arbitrary-state Des leaves every byte of its storage zero"
 g_zeroize!(des_zeroize, Des, generic::always, generic::none);
-//@ harness name=tdes_ede3_zeroize prop=C16 tier=quick bits=3072 variants=des+zeroize est=50 desc="drop of an arbitrary-state TdesEde3 leaves every byte of its storage zero"
+//@ harness name=tdes_ede3_zeroize prop=C16 tier=quick bits=3072 variants=des+zeroize est=30 desc="drop of an arbitrary-state TdesEde3 leaves every byte of its storage zero"
 g_zeroize!(tdes_ede3_zeroize, TdesEde3, generic::always, generic::none);
-//@ harness name=tdes_ede2_zeroize prop=C16 tier=quick bits=2048 variants=des+zeroize est=40 desc="drop of an arbitrary-state TdesEde2 leaves every byte of its storage zero"
+//@ harness name=tdes_ede2_zeroize prop=C16 tier=quick bits=2048 variants=des+zeroize est=20 desc="drop of an arbitrary-state TdesEde2 leaves every byte of its storage zero"
 g_zeroize!(tdes_ede2_zeroize, TdesEde2, generic::always, generic::none);
-//@ harness name=tdes_eee3_zeroize prop=C16 tier=quick bits=3072 variants=des+zeroize est=45 desc="drop of an arbitrary-state TdesEee3 leaves every byte of its storage zero"
+//@ harness name=tdes_eee3_zeroize prop=C16 tier=quick bits=3072 variants=des+zeroize est=30 desc="drop of an arbitrary-state TdesEee3 leaves every byte of its storage zero"
 g_zeroize!(tdes_eee3_zeroize, TdesEee3, generic::always, generic::none);
-//@ harness name=tdes_eee2_zeroize prop=C16 tier=quick bits=2048 variants=des+zeroize est=35 desc="drop of an arbitrary-state TdesEee2 leaves every byte of its storage zero"
+//@ harness name=tdes_eee2_zeroize prop=C16 tier=quick bits=2048 variants=des+zeroize est=25 desc="drop of an arbitrary-state TdesEee2 leaves every byte of its storage zero"
 g_zeroize!(tdes_eee2_zeroize, TdesEee2, generic::always, generic::none);
 
 // Abstractions used by the routing / state-immutability harnesses below (what the cipher computes is not their subject;
